@@ -6,6 +6,8 @@ and keeps the line number of the statement it came from.
   N3  `return A if c else B` / `x = A if c else B`                                            ->  if c: ... else: ...   (then N2)
   N2  `if c: BODY else: REST` where BODY always leaves (return / raise / continue / break)   ->  `if c: BODY` ; REST
 
+  N4  property factories in class bodies are materialised as the getter / setter pair they stand for (see below)
+
 Disabled with VERIF_NO_NORMALISE=1 (used by the self-tests of this module only).
 """
 
@@ -129,7 +131,82 @@ class _N(ast.NodeTransformer):
         return node
 
 
+def _materialise_property_factories(tree):
+    """N4  `name = make_prop("x")` in a class body, where the module-level `make_prop(p)` only defines a getter (and setter) closing
+    over its parameters and returns `property(getter[, setter])`   ->   the `@property def name(self)` / `@name.setter` pair the
+    factory stands for, with the parameters replaced by the call's arguments."""
+    import copy
+
+    facts = {}
+    for st in tree.body:
+        if not isinstance(st, ast.FunctionDef) or st.decorator_list:
+            continue
+        body = [x for x in st.body if not (isinstance(x, ast.Expr) and isinstance(x.value, ast.Constant))]
+        defs = {x.name: x for x in body if isinstance(x, ast.FunctionDef)}
+        rest = [x for x in body if not isinstance(x, ast.FunctionDef)]
+        if not defs or len(rest) != 1 or not isinstance(rest[0], ast.Return) or not isinstance(rest[0].value, ast.Call) \
+                or ast.unparse(rest[0].value.func) != "property":
+            continue
+        c = rest[0].value
+        fget = c.args[0] if c.args else next((k.value for k in c.keywords if k.arg == "fget"), None)
+        fset = c.args[1] if len(c.args) > 1 else next((k.value for k in c.keywords if k.arg == "fset"), None)
+        if not (isinstance(fget, ast.Name) and fget.id in defs) or (fset is not None and not (isinstance(fset, ast.Name) and fset.id in defs)):
+            continue
+        a = st.args
+        if a.vararg or a.kwarg or a.kwonlyargs:
+            continue
+        facts[st.name] = (st, defs[fget.id], defs[fset.id] if fset is not None else None)
+    if not facts:
+        return tree
+
+    def build(fn, name, mapping, decos, at):
+        new = copy.deepcopy(fn)
+        new.name = name
+        new.decorator_list = decos
+        bound = {x.arg for x in new.args.args + new.args.posonlyargs + new.args.kwonlyargs}
+
+        class S(ast.NodeTransformer):
+            def visit_Name(self_, x):
+                if isinstance(x.ctx, ast.Load) and x.id in mapping and x.id not in bound:
+                    return ast.copy_location(copy.deepcopy(mapping[x.id]), x)
+                return x
+        new.body = [S().visit(b) for b in new.body]
+        for y in ast.walk(new):
+            if hasattr(y, "lineno"):
+                y.lineno = at.lineno
+                y.end_lineno = getattr(at, "end_lineno", at.lineno)
+        return ast.copy_location(new, at)
+
+    for cls in [n for n in ast.walk(tree) if isinstance(n, ast.ClassDef)]:
+        out = []
+        for st in cls.body:
+            tgt, val = None, None
+            if isinstance(st, ast.Assign) and len(st.targets) == 1 and isinstance(st.targets[0], ast.Name):
+                tgt, val = st.targets[0].id, st.value
+            elif isinstance(st, ast.AnnAssign) and isinstance(st.target, ast.Name) and st.value is not None:
+                tgt, val = st.target.id, st.value
+            if tgt and isinstance(val, ast.Call) and isinstance(val.func, ast.Name) and val.func.id in facts \
+                    and not any(isinstance(x, ast.Starred) for x in val.args) and all(k.arg for k in val.keywords):
+                fdef, g, s_ = facts[val.func.id]
+                params = [x.arg for x in fdef.args.posonlyargs + fdef.args.args]
+                mapping = dict(zip(params, val.args))
+                mapping.update({k.arg: k.value for k in val.keywords})
+                dflt = dict(zip(params[len(params) - len(fdef.args.defaults):], fdef.args.defaults)) if fdef.args.defaults else {}
+                for p_, d_ in dflt.items():
+                    mapping.setdefault(p_, d_)
+                if all(p_ in mapping for p_ in params):
+                    out.append(build(g, tgt, mapping, [ast.Name(id="property", ctx=ast.Load())], st))
+                    if s_ is not None:
+                        out.append(build(s_, tgt, mapping, [ast.Attribute(value=ast.Name(id=tgt, ctx=ast.Load()), attr="setter", ctx=ast.Load())], st))
+                    continue
+            out.append(st)
+        cls.body = out
+    ast.fix_missing_locations(tree)
+    return tree
+
+
 def normalise(tree):
     if os.environ.get("VERIF_NO_NORMALISE"):
         return tree
+    tree = _materialise_property_factories(tree)
     return _N().visit(tree)
